@@ -1345,4 +1345,193 @@ theorem findsWith_iff_scanAll {nx : MSt → Array Nat → Out Res} (hi : Nat)
       rw [hfa, hf2]
       exact ⟨by simp, fun h => by cases h⟩
 
+/-! ### what `next` does to the caller's save array
+
+The searches hand the caller's save array from one interpreter call to the next and never touch it
+themselves: a reflexive and transitive relation that every interpreter call establishes between the
+array it is given and the one it leaves therefore holds between the array `next` is given and the
+one it hands back (and, along a whole scan, every recorded array). -/
+
+/-- `R` is reflexive, transitive and established by every returning interpreter call -/
+structure Interp.Keeps (ex : Interp) (R : Array Nat → Array Nat → Prop) : Prop where
+  refl : ∀ s, R s s
+  trans : ∀ a b c, R a b → R b c → R a c
+  call : ∀ c s b s', ex c s = .ok (b, s') → R s s'
+
+theorem strat0Loop_rel {ex : Interp} {R : Array Nat → Array Nat → Prop} (hK : ex.Keeps R) (stop : Nat) :
+    ∀ k (m : MSt) save r, strat0Loop ex stop k m save = .ok r → R save r.save := by
+  intro k
+  induction k with
+  | zero =>
+    intro m save r h
+    simp only [strat0Loop] at h
+    split at h
+    · cases h
+    · cases h; exact hK.refl _
+  | succ k ih =>
+    intro m save r h
+    simp only [strat0Loop] at h
+    by_cases hc : m.start < stop
+    · rw [if_pos hc] at h
+      obtain ⟨a1, _, h⟩ := bind_eq_ok h
+      obtain ⟨p, hp, h⟩ := bind_eq_ok h
+      obtain ⟨b, s'⟩ := p
+      have hR := hK.call _ _ _ _ hp
+      cases b with
+      | true => rw [if_pos rfl] at h; cases h; exact hR
+      | false => rw [if_neg (by simp)] at h; exact hK.trans _ _ _ hR (ih _ _ _ h)
+    · rw [if_neg hc] at h; cases h; exact hK.refl _
+
+theorem strat1Loop_rel {ex : Interp} {R : Array Nat → Array Nat → Prop} (hK : ex.Keeps R)
+    (bytes : Bytes) (off len byte : Nat) (m : MSt) :
+    ∀ k i hits save r, strat1Loop ex bytes off len byte m k i hits save = .ok r → R save r.save := by
+  intro k
+  induction k with
+  | zero =>
+    intro i hits save r h
+    simp only [strat1Loop] at h
+    obtain ⟨a1, _, h⟩ := bind_eq_ok h
+    cases h; exact hK.refl _
+  | succ k ih =>
+    intro i hits save r h
+    simp only [strat1Loop] at h
+    by_cases hb : byteAt bytes (off + i) = byte
+    · rw [if_pos hb] at h
+      obtain ⟨a1, _, h⟩ := bind_eq_ok h
+      obtain ⟨p, hp, h⟩ := bind_eq_ok h
+      obtain ⟨b, s'⟩ := p
+      have hR := hK.call _ _ _ _ hp
+      cases b with
+      | true =>
+        rw [if_pos rfl] at h
+        obtain ⟨c1, _, h⟩ := bind_eq_ok h
+        cases h; exact hR
+      | false => rw [if_neg (by simp)] at h; exact hK.trans _ _ _ hR (ih _ _ _ _ h)
+    · rw [if_neg hb] at h; exact ih _ _ _ _ h
+
+theorem strat2Loop_rel {ex : Interp} {R : Array Nat → Array Nat → Prop} (hK : ex.Keeps R)
+    (bytes : Bytes) (qs : List Nat) (J : Array Nat) (off len : Nat) (m : MSt) :
+    ∀ fuel i hits save r, strat2Loop ex bytes qs J off len m fuel i hits save = .ok r → R save r.save := by
+  intro fuel
+  induction fuel with
+  | zero => intro i hits save r h; simp only [strat2Loop] at h; cases h
+  | succ fuel ih =>
+    intro i hits save r h
+    simp only [strat2Loop] at h
+    by_cases hin : i + qs.length ≤ len
+    · rw [if_pos hin] at h
+      by_cases hcond : qs.getD (qs.length - 1) 0 = byteAt bytes (off + i + qs.length - 1) ∧ winEq bytes (off + i) qs = true
+      · rw [if_pos hcond] at h
+        obtain ⟨a1, _, h⟩ := bind_eq_ok h
+        obtain ⟨p, hp, h⟩ := bind_eq_ok h
+        obtain ⟨b, s'⟩ := p
+        have hR := hK.call _ _ _ _ hp
+        cases b with
+        | true =>
+          rw [if_pos rfl] at h
+          obtain ⟨c1, _, h⟩ := bind_eq_ok h
+          cases h; exact hR
+        | false => rw [if_neg (by simp)] at h; exact hK.trans _ _ _ hR (ih _ _ _ _ h)
+      · rw [if_neg hcond] at h; exact ih _ _ _ _ h
+    · rw [if_neg hin] at h
+      obtain ⟨a1, _, h⟩ := bind_eq_ok h
+      cases h; exact hK.refl _
+
+theorem strategy_rel {ex : Interp} {R : Array Nat → Array Nat → Prop} (hK : ex.Keeps R)
+    (bytes : Bytes) (qs : List Nat) (off len : Nat) (m : MSt) (save : Array Nat) (r : Res)
+    (h : strategy ex bytes qs off len m save = .ok r) : R save r.save := by
+  unfold strategy at h
+  by_cases h0 : qs.length = 0
+  · rw [if_pos h0] at h
+    unfold strategy0 at h
+    obtain ⟨a1, _, h⟩ := bind_eq_ok h
+    exact strat0Loop_rel hK _ _ _ _ _ h
+  · rw [if_neg h0] at h
+    by_cases h4 : qs.length < 4
+    · rw [if_pos h4] at h
+      cases qs with
+      | nil => simp only [strategy1] at h; cases h
+      | cons byte rest =>
+        simp only [strategy1] at h
+        exact strat1Loop_rel hK _ _ _ _ _ _ _ _ _ _ h
+    · rw [if_neg h4] at h
+      unfold strategy2 at h
+      exact strat2Loop_rel hK _ _ _ _ _ _ _ _ _ _ _ h
+
+theorem nextSection_rel {ex : Interp} {R : Array Nat → Array Nat → Prop} (hK : ex.Keeps R)
+    (bytes : Bytes) (qs : List Nat) (base off len : Nat) (m : MSt) (save : Array Nat) (r : Res)
+    (h : nextSection ex bytes qs base off len m save = .ok r) : R save r.save := by
+  unfold nextSection at h
+  dsimp only at h
+  split at h
+  · cases h
+  · split at h
+    · cases h; exact hK.refl _
+    · split at h
+      · exact strategy_rel hK _ _ _ _ _ _ _ h
+      · cases h
+
+theorem nextFile_rel {ex : Interp} {R : Array Nat → Array Nat → Prop} (hK : ex.Keeps R)
+    (bytes : Bytes) (qs : List Nat) :
+    ∀ (secs : List Pe.Sec) (m : MSt) save r, nextFile ex bytes qs secs m save = .ok r → R save r.save := by
+  intro secs
+  induction secs with
+  | nil => intro m save r h; simp only [nextFile] at h; cases h; exact hK.refl _
+  | cons s rest ih =>
+    intro m save r h
+    simp only [nextFile] at h
+    by_cases hov : s.va < m.stop ∧ wadd32 s.va s.vs > m.start
+    · rw [if_pos hov] at h
+      by_cases hraw : s.prd ≤ wadd32 s.prd s.rs ∧ wadd32 s.prd s.rs ≤ bytes.size
+      · rw [if_pos hraw] at h
+        obtain ⟨q, hq, h⟩ := bind_eq_ok h
+        have hR := nextSection_rel hK _ _ _ _ _ _ _ _ hq
+        cases hf : q.found with
+        | true => rw [hf, if_pos rfl] at h; cases h; exact hR
+        | false => rw [hf, if_neg (by simp)] at h; exact hK.trans _ _ _ hR (ih _ _ _ h)
+      · rw [if_neg hraw] at h; exact ih _ _ _ h
+    · rw [if_neg hov] at h; exact ih _ _ _ h
+
+/-- **one call of `next`** relates the caller's save array to the one handed back -/
+theorem nextWith_rel {ex : Interp} {R : Array Nat → Array Nat → Prop} (hK : ex.Keeps R)
+    (v : Pe.View) (qs : List Nat) (m : MSt) (save : Array Nat) (r : Res)
+    (h : nextWith ex v qs m save = .ok r) : R save r.save := by
+  unfold nextWith at h
+  cases hk : v.kind with
+  | file => rw [hk] at h; exact nextFile_rel hK _ _ _ _ _ _ h
+  | view => rw [hk] at h; exact nextSection_rel hK _ _ _ _ _ _ _ _ h
+
+/-- **a whole scan**: every recorded save array and the final one are related to the initial one -/
+theorem scanAll_rel {nx : MSt → Array Nat → Out Res} {R : Array Nat → Array Nat → Prop}
+    (hrefl : ∀ s, R s s) (htrans : ∀ a b c, R a b → R b c → R a c)
+    (hnx : ∀ m save r, nx m save = .ok r → R save r.save) :
+    ∀ n (m : MSt) save a, scanAll nx n m save = .ok a → R save a.save ∧ ∀ h ∈ a.hits, R save h.2 := by
+  intro n
+  induction n with
+  | zero =>
+    intro m save a h
+    simp only [scanAll] at h
+    cases h
+    exact ⟨hrefl _, fun h hh => by cases hh⟩
+  | succ n ih =>
+    intro m save a h
+    simp only [scanAll] at h
+    obtain ⟨r, hr, h⟩ := bind_eq_ok h
+    have hR := hnx _ _ _ hr
+    cases hf : r.found with
+    | true =>
+      rw [hf, if_pos rfl] at h
+      obtain ⟨a', ha', h⟩ := bind_eq_ok h
+      simp only [Out.ok.injEq] at h
+      subst h
+      obtain ⟨h1, h2⟩ := ih _ _ _ ha'
+      refine ⟨htrans _ _ _ hR h1, fun x hx => ?_⟩
+      rcases List.mem_cons.1 hx with rfl | hx
+      · exact hR
+      · exact htrans _ _ _ hR (h2 x hx)
+    | false =>
+      rw [hf, if_neg (by simp)] at h
+      cases h
+      exact ⟨hR, fun x hx => by cases hx⟩
+
 end Pelite.Scan
